@@ -102,11 +102,15 @@ NestStacks ==
 \* addresses are constructed, read back, rebuilt from the reported configuration and built through the positional helper - and
 \* never looked up (config_only).
 LooseArray(st, count) == [j \in 1..Len(st) |-> IF st[j].k = "array" THEN [st[j] EXCEPT !.count = count] ELSE st[j]]
+NarrowArray(st, count, idx) == [j \in 1..Len(st) |-> IF st[j].k = "array" THEN [k |-> "array", m |-> st[j].m, t |-> st[j].t, count |-> count, idx |-> idx] ELSE st[j]]
 LooseStacks ==
   {LooseArray(IntTail(2, 2, "float"), c) : c \in {7, 19, 23}}                                    \* extents 5 x 4 = 20 cells
   \cup {LooseArray(<<AffineL(1, 3)>> \o RealTail(1, 3, 3, "float"), c) : c \in {5, 81}}          \* 4 x 4 x 5 = 80 cells
   \cup {LooseArray(<<ClampL(1, 1), ClampL(2, 1)>> \o IntTail(1, 1, "double"), c) : c \in {1, 5, 9}}   \* 6 cells
   \cup {LooseArray(<<LayoutL("morton", 2), ArrayL(1, "float", "morton", 2)>>, c) : c \in {20, 63, 65}}   \* 5 x 4 padded to 64
+  \* array storage addressed by an 8- or 16-bit index type holding exactly as many elements as the index type can address
+  \cup {NarrowArray(IntTail(2, 1, "float"), 256, "uint8"), NarrowArray(IntTail(1, 2, "float"), 65536, "uint16"),
+        NarrowArray(<<ClampL(1, 2)>> \o IntTail(2, 1, "double"), 200, "uint8")}
 
 \* ---- seeded samples of depth up to 5
 Mix(h) == ((h % 46337) * (h % 46337) + 12345) % 46337
